@@ -50,6 +50,15 @@ CHECKS["C18"] = ("model_checking",
     "Trusted: Drift.tla; the harness's JSON reader/exporter and its exact-comparison ranks (input abstraction). Numeric accuracy beyond the stated integer quanta is not judged.",
     "§4 C18")
 
+CHECKS["C10"] = ("model_checking",
+    "MainEvent.tla composes the format modules into the requirement on try_from_banks as a function of the bag of (name, bytes): rejection conditions, wire/pad positions from the recorded map tables, delay, baseline and gain from the shipped calibration files. MC_MainEvent exhausts every sequence of up to 4 (5) abstract bank templates and shows the code-shaped fold equals the order-free requirement. All short template sequences, seeded events with one injected inconsistency over nine run numbers and an element sweep (all wires, 1/64 or all pads) run through the real builder; Trace_MainEvent recomputes verdict, timestamp and - through hook H1 - every occupied slot with its values from the bank bytes.",
+    "Trusted: the composed TLA+ modules; map tables recorded through the public API; the harness's reader of the calibration data files. Not judged: duplicates involving data-less 16-byte packets; PWB payload identity differing from chunk headers.",
+    "§4 C10")
+CHECKS["C11"] = ("model_checking",
+    "Order independence is a theorem of the design model (fold = Build(bag) for every sequence of up to 4/5 templates). On the implementation every sampled bag (model sequences, inconsistent events, clashing PWB identities, simulated multi-track events with noise and malformed variants) is run for every adjacent transposition, the reversal and random permutations, twice in-process, on 4 concurrent threads and in fresh processes with fresh HashMap seeds; Trace_Det requires one verdict class and one bit-level digest of (timestamp, avalanches in order, vertex) per bag.",
+    "Trusted: MC_MainEvent as the design argument; 64-bit digest of the canonical result; coverage of permutations beyond adjacent transpositions/reversal is sampled.",
+    "§4 C11")
+
 NOT_APPLICABLE = {
     "C12": "population statistics of a floating-point pipeline against a physical forward model; TLA+/TLC has no reals or floats, so the spec cannot be the oracle",
     "C16": "decisive clause is a floating-point global minimisation over a continuum; only a numeric brute force could referee it, which is a different technique",
